@@ -99,7 +99,7 @@ def run(ctx, budget=None):
         if "panic" in ip:
             violations.append({"sig": "panic:" + ip["panic"][:60], "what": "panic: %s\n%s" % (ip["panic"], ip.get("stack", "")[:1500]), "scenario": dump(sc)})
             return
-        if dt > 20:
+        if dt > core.patience(20):
             violations.append({"sig": "slow", "what": "in-process command took %.1fs" % dt, "scenario": dump(sc)})
         if ip["exit"] not in (0, 1):
             violations.append({"sig": "exit", "what": "exit %r" % ip["exit"], "scenario": dump(sc)})
@@ -159,7 +159,7 @@ def run(ctx, budget=None):
             dist["cli_runs"] += 1
             dist["stress_cases"] = dist.get("stress_cases", 0) + 1
             if rc == -9:
-                violations.append({"sig": "hang", "what": "the command did not finish within 40 s on %s (%d services, %d bytes)" % (label, len(cfg.get("services", {})), len(sc["files"]["cfg/a.yaml"])), "scenario": dict(dump(sc), cli_flags=fl)})
+                violations.append({"sig": "hang", "what": "the command did not finish within 40 s (stretched by the machine's load) on %s (%d services, %d bytes)" % (label, len(cfg.get("services", {})), len(sc["files"]["cfg/a.yaml"])), "scenario": dict(dump(sc), cli_flags=fl)})
             elif rc not in (0, 1):
                 violations.append({"sig": "cli-exit-%s" % rc, "what": "CLI exit %r on %s: stderr %r" % (rc, label, se[:600]), "scenario": dict(dump(sc), cli_flags=fl)})
             nontriv.add((rc, "stress", label.split("-")[0]))
